@@ -2,6 +2,7 @@ package main
 
 import (
 	"math/big"
+	"runtime"
 	"strings"
 
 	d128 "github.com/woodsbury/decimal128"
@@ -92,6 +93,15 @@ func (g *Gen) tailValue(t tailSpec) *big.Int {
 
 // gridRun runs the cases of this shard's stripe (rotated by the seed) until the given share of the shard's budget is used.
 func (g *Gen) gridRun(n int, share float64, f func(i int)) {
+	name := "grid"
+	if pc, _, _, ok := runtime.Caller(1); ok {
+		name = runtime.FuncForPC(pc).Name()
+		if k := strings.LastIndex(name, "."); k >= 0 {
+			name = name[k+1:]
+		}
+	}
+	covered := 0
+	defer func() { gridStats[name] = [2]int{gridStats[name][0] + covered, n} }()
 	limit := g.w.n + int(share*float64(g.w.max))
 	if g.w.max == 0 {
 		limit = 1 << 60
@@ -113,8 +123,12 @@ func (g *Gen) gridRun(n int, share float64, f func(i int)) {
 			return
 		}
 		f(idx[(off+k)%len(idx)])
+		covered++
 	}
 }
+
+// cells walked per enumerated grid (summed over the shards of one gen run), written next to the shards
+var gridStats = map[string][2]int{}
 
 var smallJs = []int{1, 2, 3, 4, 5, 6, 7, 8, 9, 10, 11, 12, 15, 18, 19, 20, 21, 27, 34}
 
